@@ -234,6 +234,7 @@ def run(ctx):
         finally:
             tw.close()
         metadata_conflicts_and_edits(ctx, res)
+        archive_member_order(ctx, res)
         from props import c08
         c08.big_link_file(res, "C07")        # entries hidden by blocks late in a large link file stay hidden
         c08.trailing_slash_blocks(res, "C07")   # ... and a directory hidden or renamed by 'Path=./dir/' is hidden, or listed once
@@ -261,6 +262,39 @@ def run(ctx):
     sitecorr.compare(ctx, res, ctx.n(4, 40), "C07")
     res.degraded = sorted(set(res.degraded + list(pyg.degraded)))
     return res
+
+
+def archive_member_order(ctx, res):
+    """The order in which an archive stores its members is an enumeration order too: archives that hold the same members in
+    different orders list alike (two link files whose blocks interact, as in a directory on disk)."""
+    import zipfile
+    import itertools
+    members = [("d/x.txt", b"x\n"), ("d/y.txt", b"y\n"), ("d/zz.txt", b"z\n"),
+               ("d/.Links", b"Name=Same name\nNumb=1\nType=1\nPath=/r1\nHost=one.example\nPort=70\n\nPath=./x.txt\nName=X as .Links says\n"),
+               ("d/.names", b"Name=Same name\nNumb=1\nType=1\nPath=/r2\nHost=two.example\nPort=70\n\nPath=./x.txt\nName=X as .names says\n"),
+               ("d/.extra", b"Path=./y.txt\nNumb=3\n")]
+    tree = pyg.Tree()
+    try:
+        orders = [members, list(reversed(members)), [members[i] for i in (4, 0, 3, 2, 5, 1)], [members[i] for i in (3, 4, 5, 0, 1, 2)]]
+        for k, order in enumerate(orders):
+            with zipfile.ZipFile(os.fsdecode(tree.path("arch%d.zip" % k)), "w") as z:
+                for name, data in order:
+                    z.writestr(name, data)
+        cfg = pyg.make_config(tree.root, pyg.FULL_HANDLERS, **{"handlers.dir.DirHandler|cachetime": "0", "handlers.ZIP.ZIPHandler|enabled": "true"})
+        outs = []
+        for k in range(len(orders)):
+            r = pyg.request(reqs.build("gopher", "/arch%d.zip/d" % k), cfg)
+            outs.append((r.out or b"").replace(b"/arch%d.zip" % k, b"/arch@.zip"))
+            res.evaluations += 1
+            res.nontrivial.add(("archive-member-order", k))
+        for k in range(1, len(outs)):
+            if outs[k] != outs[0] or b"x.txt" not in outs[0]:
+                res.violation("C07:order-depends-on-enumeration:zip", "archives with the same members stored in different orders list differently",
+                              {"order": [n for n, _ in orders[k]], "against": [n for n, _ in orders[0]]}, observed=outs[k][:400], required=outs[0][:400],
+                              replay={"names": [n for n, _ in orders[k]], "handler": "umn"})
+    finally:
+        tree.close()
+        pyg.reset_globals()
 
 
 def metadata_conflicts_and_edits(ctx, res):
